@@ -168,7 +168,7 @@ def gen_cases(ctx, table):
     sizes = [0, 1, 31, 64, 100, 1000, 4000, 4096, 5000, 20000, 65536]
     for tr, pid in sets:
         L = flen[(tr, pid)]
-        for dl in (sizes if not quick else rng.sample(sizes, 4) + [65536 if (tr, pid) in (("min", 0), ("prefix", 2)) else 4096 - L]):
+        for dl in (sizes if not quick else rng.sample(sizes[:-2], 2) + [65536 if (tr, pid) == ("prefix", 2) else 4096 - L]):
             k = rng.randrange(0, 5)
             cuts = sorted(set(rng.randrange(1, L + max(dl, 1)) for _ in range(k)))
             mk(tr, pid, cuts=cuts, data_len=dl, kind="early")
@@ -321,19 +321,29 @@ def run(ctx):
         return
     results = res["results"]
     terms, idx = [], []
-    # quick tier: the oracle looks at every connection; the model is evaluated (coqc) on all natural /
-    # early-data / paced / obfs4 connections, on every 1-cut with early data, on the 1-cuts without
-    # early data that fall in the last bytes of the flight, and on a sample of the 2-cuts.  The
-    # thorough tier sends every connection through coqc.
+    # quick tier: the oracle looks at every connection; the model is evaluated (coqc costs ~40 ms of
+    # CPU per connection, mostly for elaborating the byte literals) on all natural / early-data / paced /
+    # obfs4 connections, on the 1-cuts at and around every boundary of the flight plus every third other
+    # 1-cut, on the banner cases whose cut falls in the last bytes of the flight, and on a sample of
+    # the 2-cuts.  The thorough tier sends every connection through coqc.
     skip = set()
     if ctx.tier == "quick":
         two = [i for i, c in enumerate(cases) if c.get("kind") == "2cut"]
         ctx.rng.shuffle(two)
-        skip = set(two[300:])
+        skip = set(two[150:])
+        phase = ctx.rng.randrange(3)
         for i, c in enumerate(cases):
-            if c.get("kind") == "1cut-banner" and c["cuts"] and results[i].get("flight") and \
-                    c["cuts"][0] < len(results[i]["flight"]) // 2 - 4:
+            fl = len(results[i].get("flight") or "") // 2
+            if not fl or not c.get("cuts"):
+                continue
+            cut = c["cuts"][0]
+            if c.get("kind") == "1cut-banner" and cut < fl - 4:
                 skip.add(i)
+            elif c.get("kind") == "1cut":
+                off = fl - 64 if c["transport"] == "prefix" else 0
+                hot = {1, off - 1, off, off + 1, off + 31, off + 32, off + 33, fl - 1, fl, fl + 1}
+                if cut not in hot and cut % 3 != phase:
+                    skip.add(i)
     for i, (c, r) in enumerate(zip(cases, results)):
         bad = oracle(ctx, c, r)
         kind = "%s/%s/%s" % (c["transport"], c.get("kind", "replay"), "ok" if not bad else "bad")
